@@ -59,7 +59,8 @@ Step ==
          /\ SendAll(j, r.out)
          /\ amf' = r.amf /\ j' = j + Len(r.out) /\ k' = k + 1
          /\ nbad' = nbad + Cardinality(r.complaints)
-         /\ notes' = Append(notes, [k |-> k, note |-> noteStr, nout |-> Len(r.out), afterFault |-> Faulted, bad |-> Cardinality(r.complaints)])
+         /\ notes' = Append(notes, [k |-> k, note |-> noteStr, nout |-> Len(r.out), afterFault |-> Faulted, bad |-> Cardinality(r.complaints),
+                                   u |-> r.abs.u, cnt |-> r.abs.cnt])
          /\ phase' = "run" /\ result' = result
       ELSE /\ phase' = "done"
            /\ result' = ev
@@ -113,7 +114,8 @@ Finish ==
          [result |-> result, notes |-> notes, nbad |-> nbad + Cardinality(FinalComplaints), k |-> k, j |-> j,
           ues |-> [i \in 1..Len(amf.ues) |-> [u |-> amf.ues[i].u, st |-> amf.ues[i].st, sess |-> amf.ues[i].sess, psi |-> amf.ues[i].psi,
                                               imsi |-> amf.ues[i].imsi, ul |-> amf.ues[i].sec.ul]],
-          ngSetup |-> amf.ngSetup, nreports |-> Len(EstReports)])
+          ngSetup |-> amf.ngSetup, nreports |-> Len(EstReports),
+          reportsAbs |-> [i \in 1..Len(EstReports) |-> [u |-> i, ok |-> i <= Len(Scn.ues) /\ ReportOk(i)]]])
    /\ UNCHANGED <<k, j, amf, nbad, notes, result>>
 Next == Step \/ Finish
 Judged == TLCGet("stats").diameter >= 2
